@@ -279,7 +279,7 @@ def run(ctx):
             check_replace(ctx, base, kw)
             ctx.case((base, repr(sorted(kw.items(), key=str))))
     ctx.sample("replace", {"url": "http://u:p@ss:w@[::1]:8080/p/q?a=1#f", "replace": {"password": "a@b", "hostname": "[::2]", "port": None}})
-    for i in range(ctx.scale(8000, 300_000)):
+    for i in range(ctx.scale(8000, 1_000_000)):
         case = check_query_helpers(ctx, rng)
         ctx.case(repr(case))
         if i < 1:
